@@ -19,7 +19,21 @@ const eps = 1e-9
 
 type tp [2]float64 // tile-space point
 
-func frac(p orb.Point, z maptile.Zoom) tp { f := maptile.Fraction(p, z); return tp{f[0], f[1]} }
+// frac is the check's own tile-space projection (the documented behaviour of maptile.Fraction, written
+// independently: the oracle must not inherit a change to the function it judges): x linear in the longitude,
+// y the web-mercator latitude, rows beyond +-85.0511 snapped to row 0 and to 2^z - 1.
+func frac(p orb.Point, z maptile.Zoom) tp {
+	n := math.Ldexp(1, int(z))
+	x := (p[0]/360 + 0.5) * n
+	switch {
+	case p[1] < -85.0511:
+		return tp{x, n - 1}
+	case p[1] > 85.0511:
+		return tp{x, 0}
+	}
+	phi := p[1] * math.Pi / 180
+	return tp{x, (1 - math.Log(math.Tan(math.Pi/4+phi/2))/math.Pi) / 2 * n}
+}
 
 // clipT: parameter interval of a+t(b-a) inside [x0,x1]x[y0,y1] (floats)
 func clipT(a, b tp, x0, y0, x1, y1 float64) (float64, float64, bool) {
@@ -273,7 +287,8 @@ func main() {
 		"map iteration: entries inserted during a range are not visited (one of the behaviours Go allows); no range in these packages inserts new keys",
 		"longitude +-180 and |lat| > 85 are outside the quantifier",
 	}
-	regions := []region{{"equator z2", 2, 0, 0}, {"equator z4", 4, 22.5, 0}, {"mid-lat z6", 6, -73.125, 41}, {"equator z6", 6, 5.625, 0}}
+	// the last two regions reach the bottom row of the world: at zoom 3 and 4 (straddling the clamp latitude) and at zoom 1 and 2, where that row is a whole hemisphere
+	regions := []region{{"equator z2", 2, 0, 0}, {"equator z4", 4, 22.5, 0}, {"mid-lat z6", 6, -73.125, 41}, {"equator z6", 6, 5.625, 0}, {"south edge z5", 5, 45, -75}, {"southern z2", 2, 0, -40}}
 	if !r.Quick() {
 		regions = append(regions, region{"equator z8", 8, 11.25, 0}, region{"z12", 12, -122.34375, 37.7}, region{"equator z17", 17, 2.8125, 0}, region{"z22", 22, 139.74609375, 35.6})
 	}
